@@ -429,7 +429,10 @@ class MeasurementConverter:
         pass
     return trial.Measurement(
         metrics=metrics,
-        elapsed_secs=proto.elapsed_duration.seconds,
+        elapsed_secs=(
+            proto.elapsed_duration.seconds
+            + proto.elapsed_duration.nanos / 1e9
+        ),
         steps=proto.step_count,
     )
 
